@@ -100,12 +100,33 @@ func init() {
 	}
 	// bytes <prefix> <text> : both one-shot functions, must agree
 	handlers["bytes"] = func(t []string) string {
-		p, b := unhex(t[0]), unhex(t[1])
+		p0, b0 := unhex(t[0]), unhex(t[1])
+		// the caller's slices sit inside larger buffers: the functions must neither write into them nor hand
+		// out results that share their memory
+		pbuf := append(append(make([]byte, 0, len(p0)+64), p0...), "....tail of the caller's prefix buffer...."...)
+		bbuf := append(append(make([]byte, 0, len(b0)+64), b0...), "....tail of the caller's text buffer...."...)
+		pcopy, bcopy := string(pbuf), string(bbuf)
+		p, b := pbuf[:len(p0)], bbuf[:len(b0)]
 		x := indent.Bytes(p, b)
+		xs := string(x)
 		y := indent.String(string(p), string(b))
-		if string(x) != y {
+		if xs != y {
 			return "MISMATCH-String-vs-Bytes"
 		}
-		return enhex(x)
+		// a second rendering with the same prefix slice must leave the first one alone
+		z := indent.Bytes(p, []byte("second\n"))
+		if string(x) != xs || string(pbuf) != pcopy || string(bbuf) != bcopy {
+			return "ALIASED-result-or-argument-changed-by-a-later-call"
+		}
+		if len(p0) > 0 && len(b0) > 0 {
+			// writing into a result must not reach the arguments or another result
+			for i := range x {
+				x[i] = '#'
+			}
+			if string(pbuf) != pcopy || string(bbuf) != bcopy || string(z) != string(indent.Bytes(p0, []byte("second\n"))) {
+				return "ALIASED-result-shares-memory-with-an-argument"
+			}
+		}
+		return enhex([]byte(xs))
 	}
 }
